@@ -28,6 +28,7 @@ import (
 	"github.com/rulego/streamsql/utils/cast"
 
 	"github.com/rulego/streamsql/types"
+	"github.com/rulego/streamsql/utils/verifhook"
 )
 
 var _ Window = (*CountingWindow)(nil)
@@ -122,6 +123,7 @@ func (cw *CountingWindow) Add(data any) {
 		Timestamp: t,
 	}
 
+	verifhook.Point("counting.add")
 	select {
 	case cw.triggerChan <- row:
 	case <-cw.ctx.Done():
